@@ -355,6 +355,7 @@ def _child(scn: Scenario, out_paths: dict, conns: dict, use_real_pool: bool):
                 pid = os.fork()
                 if pid == 0:
                     try:
+                        conns[i + 1].send(("pid", os.getpid()))
                         body(i + 1, c)
                     finally:
                         os._exit(0)
@@ -405,6 +406,7 @@ class SessionRun:
         self.lock_epoch = {"eval": 0, "file": 0}
         self.probe_locks = scn.workers == "processes"
         self.probed: set = set()
+        self.pids: dict[int, int] = {}
         self.anomalies: list[dict] = []
         self.buf_paths: dict[str, set] = {a: set() for a in scn.aggs}
         self.events: list[dict] = []
@@ -427,7 +429,9 @@ class SessionRun:
                 except EOFError:
                     self.state[a] = "dead"
                     continue
-                if msg[0] == "req":
+                if msg[0] == "pid":
+                    self.pids[a] = msg[1]
+                elif msg[0] == "req":
                     self.pending[a] = (msg[1], msg[2])
                     self.state[a] = "blocked"
                 elif msg[0] == "spawned":
@@ -505,6 +509,17 @@ class SessionRun:
             self.buf_paths[self.scn.calls[actor - 1]["agg"]].add(path)
         else:
             self.buf_paths.setdefault("_main", set()).add(path)
+
+    def kill_worker(self, a):
+        """SIGKILL of ONE forked worker process (beyond C16/C17: the single-worker-kill hazard)"""
+        os.kill(self.pids[a], signal.SIGKILL)
+        self.state[a] = "done"
+        self.status[a] = "killed"
+        self.pending.pop(a, None)
+        self.events.append({"p": a, "op": "killed", "path": None})
+        if all(self.state[x] == "done" for x in self.actors[1:]) and self.state[MAIN] == "joinwait":
+            self.state[MAIN] = "running"
+            self.settle()
 
     def kill(self):
         try:
@@ -609,7 +624,7 @@ class History:
                 bufs[p] = read_lines(Path(p), self.header, self.rows, False)
         return files, bufs
 
-    def run_session(self, policy, kill_at=None, max_steps=400):
+    def run_session(self, policy, kill_at=None, max_steps=400, kill_worker=None):
         """policy(run) -> actor to grant next (from run.enabled()).  kill_at = index of the step
         before which the session is killed (None = run to the end)."""
         if self.init_files is None:
@@ -633,6 +648,9 @@ class History:
                 a = policy(run, en)
                 op = run.grant(a)
                 self.schedule.append(a)
+                if kill_worker is not None and (a, op) == tuple(kill_worker) and a in run.pids:
+                    run.kill_worker(a)
+                    kill_worker = None
                 if op.startswith("acqfail_"):
                     step += 1
                     if step > max_steps:
